@@ -525,6 +525,12 @@ func (x *exec) opOpenStream() {
 		snap pdf.Object
 	}
 	var defs []deferred
+	type deferredStream struct {
+		ref  pdf.Reference
+		dict pdf.Dict
+		body []byte
+	}
+	var defStreams []deferredStream
 	for len(rest) > 0 {
 		n := sched.Next(len(rest))
 		m, err := ws.Write(rest[:n])
@@ -540,6 +546,18 @@ func (x *exec) opOpenStream() {
 			// Put while the stream is open: deferred until it closes
 			dl := fmt.Sprintf("%s.def%d", lbl, len(defs))
 			dref := x.takeRef(dl)
+			if t.Bool(dl+".isstream", 1, 4) {
+				// a deferred stream object
+				sd := x.streamDict(dl)
+				sbody := gen.Body(t, dl+".body", 2000, x.r.SafeText)
+				snapDict := gen.Clone(sd).(pdf.Dict)
+				if x.fail("Put(deferred stream)", x.w.Put(dref, pdf.NewStream(sd, sbody))) {
+					return
+				}
+				defStreams = append(defStreams, deferredStream{dref, snapDict, append([]byte(nil), sbody...)})
+				x.res.Probes["stream Put while stream open"]++
+				continue
+			}
 			obj := gen.TopLevel(t, dl+".obj", x.opts())
 			snap := x.snapshot("deferred put", obj)
 			if x.fail("Put(deferred)", x.w.Put(dref, obj)) {
@@ -567,6 +585,9 @@ func (x *exec) opOpenStream() {
 	x.record(ref, &Expect{IsStream: true, Dict: snapDict, Body: append([]byte(nil), body...), How: "openstream", Filters: names})
 	for _, d := range defs {
 		x.record(d.ref, &Expect{Obj: d.snap, How: "deferred"})
+	}
+	for _, d := range defStreams {
+		x.record(d.ref, &Expect{IsStream: true, Dict: d.dict, Body: d.body, How: "deferred-stream"})
 	}
 	if len(filters) > 0 {
 		x.res.Probes["stream with filters"]++
